@@ -29,7 +29,7 @@ valid = econprops.valid_program
 def generate(seed, tier):
     S = core.Streams(seed)
     tight = S['swarm'].random() < 0.7
-    ops, info = econgen.gen_program(seed, tight=tight, on_grid=S['swarm'].random() < 0.7)
+    ops, info = econgen.gen_program(seed, T=(S['knobs'].randint(2, 10) if tier == 'thorough' else None), tight=tight, on_grid=S['swarm'].random() < 0.7)
     if S['swarm'].random() < 0.4:
         # not only the generator's canonical declaration order: a seeded dependency-respecting order
         from . import c08
